@@ -225,12 +225,13 @@ Print Assumptions C13_twolevel_run.
    lifted('C13_pass_totals','TLBridge','twolevel_totals','SECOND CLAUSE, totals on the extracted model: whenever the generator stands between adjoint passes (head of its `while True`: after EndForward / each EndReverse) the reference executor has carried out N + passes * W forward steps, W = TLBridge.W = the sum over the period blocks of T(block length, binomial_snapshots + 1) with T = Inst.TC, the work of the binomial recursion (= the Griewank-Walther optimum by C05_chain); every N (last block partial or full), both storages, both trajectories, all passes'),
    lifted('C13_block_total','TLInv','block_total','per block, on the TwoLevel machine of TLInv.v that the extracted machine is proved to follow (TLBridge.resume_agrees): when a block has been reversed completely, exactly T(L, b+1) forward steps were spent on it'),
    lifted('C13_storage_of_extra_checkpoints_partial','TLBridge','tl_exec_agrees','PARTIAL: that extra checkpoints go only to the binomial storage is contained in the executor bridge (every accepted checkpointing Forward inside a block names bst) and in the budgets of the run theorem (0 units in the other storage), but is not stated as a separate theorem')])
-mk('C14', ['TopK','AllocProofs','SplitProofs','AllocMin'], [lifted('C14_labels_only','SplitProofs','C14_labels_only','first clause: two Multistage configurations with the same max_n, trajectory and number of labels produce the same stream up to the storage named in checkpoint actions (erase_out forgets RAM/DISK), from every state and for every number of requests'),
+mk('C14', ['TopK','AllocProofs','SplitProofs','AllocMin','AllocGlue'], [lifted('C14_labels_only','SplitProofs','C14_labels_only','first clause: two Multistage configurations with the same max_n, trajectory and number of labels produce the same stream up to the storage named in checkpoint actions (erase_out forgets RAM/DISK), from every state and for every number of requests'),
    lifted('C14_construct_labels','AllocProofs','construct_labels','the labels of a constructed Multistage schedule: all RAM or DISK, min(ram+disk, N-1) of them, at most min(ram, N-1) RAM and at most min(disk, N-1) DISK'),
    lifted('C14_alloc_labels_facts','AllocProofs','alloc_labels_facts','exactly min(ram, #positions) positions are labelled RAM'),
    lifted('C14_position_storage','AllocMin','ms_position_storage','second clause: a checkpoint pushed when the stack holds d entries is written to label d, and is read (Copy / Move) only while on top with d entries below it, from label d -- every state of the extracted machine'),
    lifted('C14_alloc_min_disk','AllocMin','alloc_min_disk','last clause, the allocation step: for any non-negative per-position weights w, the labelling allocate_snapshots computes (alloc_labels w r) puts the least total weight on DISK among all RAM/DISK labellings with at most r RAM positions'),
-   lifted('C14_weights_are_access_counts_partial','TopK','topk_max','PARTIAL: that the weights allocate_snapshots feeds into this step are the per-position access counts of the emitted stream (so that the weight on DISK is the number of DISK accesses) is not proved: correspondence (fn.allocate_snapshots) + oracle; (this lemma: the first k of a descending list maximise the sum over all k-sub-multisets)')])
+   lifted('C14_disk_accesses_are_weights','AllocGlue','disk_accesses_are_weights','the glue: for every configuration c with the same max_n, trajectory and number of labels as the dry-run configuration c0, the number of accesses (checkpoint writes + loads) of its stream that name storage st is lsum st (labels c) w, w = the weights allocate_snapshots computes from the dry run; (streams are taken over fuel_for N requests, as in the model of allocate_snapshots)'),
+   lifted('C14_min_disk_accesses','AllocGlue','multistage_min_disk','LAST CLAUSE: the constructed MultistageCheckpointSchedule(N, ram, disk) has the fewest DISK accesses among all label vectors of the same length with at most min(ram, N-1) RAM positions (all three constructor branches)')])
 mk('C15', ['MemoCoh','SchedProofs'], [lifted('C15_memo_warm_planC','MemoCoh','memo_warm_planC','the memoised planner as the extracted iterator uses it (cache warmed by an arbitrary earlier call) returns the canonical plan for every sub-problem'),
    lifted('C15_memoS_total','MemoCoh','memoS_total','with enough fuel a call succeeds from any coherent cache'),lifted('C15_cache_coherent','MemoCoh','C15_cache_coherent','every cache reachable by any sequence of calls holds only correct entries'),
    lifted('C15_history_independent','MemoCoh','C15_history_independent','a successful call returns the pure value whatever the call history')])
